@@ -137,6 +137,19 @@ pub fn run(seed: u64, runs: usize, steps: usize, tw: &mut TraceWriter) -> (u64, 
     let mut master = SmallRng::seed_from_u64(seed);
     let mut inserted = 0u64;
     let mut base = 0u64;
+    // Timer's own order (used by runtimes to break ties among due timers): the kinds sorted by `Ord`
+    {
+        let x = Id::new(2, 0);
+        let mut ts = vec![
+            Timer::RemoveDown(x), Timer::PeriodicAnnounceDown(0), Timer::PeriodicGossip(0), Timer::PeriodicAnnounce(0),
+            Timer::ChangeSuspectToDown { member_id: x, incarnation: 0, token: 0 }, Timer::ProbeRandomMember(0),
+            Timer::SendIndirectProbe { probed_id: x, token: 0 },
+        ];
+        ts.sort();
+        let kinds: Vec<String> = ts.iter().map(|t| crate::node::timer_json(t)["k"].as_str().unwrap().to_string()).collect();
+        tw.env("reset", 0, json!({"run": 0, "driver": "twin"}));
+        tw.env("group", 0, json!({"prop": "C13", "kind": "timer-order", "order": kinds}));
+    }
     for run in 0..runs {
         let mut r = SmallRng::seed_from_u64(master.random());
         let codec = pick(&mut r, &[CodecKind::Hand(Mode::Fixed), CodecKind::Hand(Mode::Var)]);
